@@ -292,6 +292,49 @@ def run(tier, seed, replay):
     p_ = subprocess.run([T["jwt-verify"], "-q", "-k", hkey, "-"], input=("\n".join(all_ok) + "\n").encode(), capture_output=True, env=env)
     if p_.returncode != 0:
         rep.violation("jwt-verify-disagrees-with-library:stdin-list:tool-rejects", "jwt-verify exits %d on the list of all hand-made tokens the library accepts" % p_.returncode, dict(n=len(all_ok)))
+    # -a/--algorithm against keys with and without an alg of their own: the tool passes (option alg, key) to jwt_checker_setkey; whatever the
+    # library then says (refusal at set-up, verdict per token) is what the tool's exit status must say
+    ALGNUM = {"HS256": 1, "HS384": 2, "HS512": 3}
+    kfiles = [os.path.join(kd, n) for n in ("oct_64_alg.jwk.json", "oct_64.jwk.json", "oct_100_alg.jwk.json", "oct_32_alg.jwk.json") if os.path.exists(os.path.join(kd, n))]
+    optjobs = []
+    for kf in kfiles:
+        kj = json.load(open(kf))
+        kb_ = base64.urlsafe_b64decode(kj["k"] + "==")
+        toks_ = []
+        for an, dg_ in (("HS256", hashlib.sha256), ("HS384", hashlib.sha384), ("HS512", hashlib.sha512)):
+            msg_ = b64(('{"alg":"%s"}' % an).encode()) + "." + b64(b'{"iss":"opt"}')
+            toks_.append(msg_ + "." + b64(hmac.new(kb_, msg_.encode(), dg_).digest()))
+        tfile = os.path.join(rd, "opt_tokens_%s.txt" % os.path.basename(kf))
+        open(tfile, "w").write("\n".join(toks_) + "\n")
+        for opt in (None, "HS256", "HS384", "HS512"):
+            for sp_i, sp in enumerate(([[]] if opt is None else spellings("a", longs["jwt-verify"].get("a", "algorithm"), opt))):
+                optjobs.append((kf, kj.get("alg"), opt, sp, toks_, tfile))
+    def opt_job(j):
+        kf, kalg_, opt, sp, toks_, tfile = j
+        h_ = subprocess.run([helper, "--mode", "verdicts", "--arg1", kf, "--arg2", tfile, "--n", str(ALGNUM.get(opt, 0))], capture_output=True, env=env)
+        lines_ = [json.loads(l) for l in h_.stdout.decode().splitlines() if l.startswith("[")]
+        refused = any(l[0] == "VS" and l[1] for l in lines_)
+        verd = {l[1]: l[2] for l in lines_ if l[0] == "VD"}
+        res_ = []
+        for i_, tk in enumerate(toks_):
+            p_ = subprocess.run([T["jwt-verify"], "-q", "-k", kf] + sp + [tk], capture_output=True, env=env)
+            res_.append(p_.returncode)
+        return j, h_.returncode, refused, verd, res_
+    with ThreadPoolExecutor(vf.NCPU) as ex:
+        for (kf, kalg_, opt, sp, toks_, tfile), hrc, refused, verd, res_ in ex.map(opt_job, optjobs):
+            nokeyalg_noopt = kalg_ is None and opt is None      # usage error of the tool, not a library matter
+            for i_, r_ in enumerate(res_):
+                rep.evaluations += 1
+                rep.distinct.add(("alg-option", os.path.basename(kf), opt, i_))
+                rep.count("alg_option_cells")
+                if hrc != 0 or (not refused and i_ not in verd):
+                    raise vf.HarnessFailure("verdict helper failed for %s -a %s" % (kf, opt))
+                want_ok = (not refused) and (not nokeyalg_noopt) and verd.get(i_) == 0
+                if (r_ == 0) != want_ok:
+                    rep.violation("jwt-verify-alg-option:%s:%s" % ("key-has-alg" if kalg_ else "key-without-alg", "tool-accepts" if r_ == 0 else "tool-rejects"),
+                                  "jwt-verify %s with key alg %s exits %d on an %s token; the library %s" % (" ".join(sp) or "(no -a)", kalg_, r_, ("HS256", "HS384", "HS512")[i_],
+                                  "refuses this (alg, key) pair at setkey" if refused else "returns %s" % verd.get(i_)),
+                                  dict(key=os.path.basename(kf), key_alg=kalg_, option=sp, token_alg=("HS256", "HS384", "HS512")[i_], exit=r_))
     # token sizes as argument and on stdin
     for size in ([200, 4000, 8100, 8192, 8300, 12000, 65000] if thorough else [200, 8100, 12000, 40000]):
         rc, out, err = sh([T["jwt-generate"], "-q", "-k", hkey, "-c", "s:pad=" + "p" * size])
